@@ -301,12 +301,21 @@ def rule_float_conversion(repo: Repo) -> List[Ob]:
     f = repo.function("utils/expressions.py", "float_to_rational")
     rets = [r.value for r in walk_no_nested(f.node) if isinstance(r, ast.Return)]
     ok = False
+    extra = ""
     if len(rets) == 1:
-        rat = [c for c in ast.walk(rets[0]) if isinstance(c, ast.Call) and call_name(c) == "Rational"]
-        ok = bool(rat) and len(rat[0].args) == 1 and isinstance(rat[0].args[0], ast.Call) and call_name(rat[0].args[0]) == "str"
+        e = rets[0]
+        # value-preserving wrappers around the exact conversion
+        while isinstance(e, ast.Call) and isinstance(e.func, ast.Name) and e.func.id in ("sympy2symengine", "sympify", "S", "Rational") and len(e.args) == 1 \
+                and not (e.func.id == "Rational" and isinstance(e.args[0], ast.Call) and call_name(e.args[0]) == "str"):
+            e = e.args[0]
+        ok = isinstance(e, ast.Call) and isinstance(e.func, ast.Name) and e.func.id == "Rational" and len(e.args) == 1 and not e.keywords \
+            and isinstance(e.args[0], ast.Call) and call_name(e.args[0]) == "str" and len(e.args[0].args) == 1 \
+            and isinstance(e.args[0].args[0], ast.Name) and e.args[0].args[0].id == f.params()[0]
+        if not ok:
+            extra = f" (returns `{src(rets[0])[:70]}`)"
     obs.append(Ob("E-float", "utils/expressions.py::float_to_rational::decimal-text", f.relpath, f.node.lineno, f.qualname, ok,
-                  "float literals are converted through their decimal text: 0.1 becomes 1/10" if ok else
-                  "float_to_rational does not go through Rational(str(x)): 0.1 would become its binary expansion, not 1/10"))
+                  "float literals are converted through their decimal text and nothing else: 0.1 becomes exactly 1/10" if ok else
+                  "float_to_rational is not exactly Rational(str(x)): the literal is rounded or read as its binary expansion" + extra))
     # Distribution.__init__ and PolyAssignment.__init__ route every Float through it
     sites = [("program/distribution/distribution.py", "Distribution.__init__", ["set_parameters"], "parameters"),
              ("program/assignment/poly_assignment.py", "PolyAssignment.__init__", ["polynomials", "probabilities"], None)]
